@@ -76,7 +76,9 @@ type StrictError struct {
 	Reason string // e.g. "escape \\a", "raw control byte", "invalid UTF-8"
 }
 
-func (e *StrictError) Error() string { return fmt.Sprintf("not RFC 8259 JSON at byte %d: %s", e.Pos, e.Reason) }
+func (e *StrictError) Error() string {
+	return fmt.Sprintf("not RFC 8259 JSON at byte %d: %s", e.Pos, e.Reason)
+}
 
 func (p *sjson) errf(f string, a ...any) error { return &StrictError{p.i, fmt.Sprintf(f, a...)} }
 
